@@ -7,6 +7,7 @@ import Hpv.Basic
 import Hpv.TermId
 import Hpv.Csr
 import Hpv.Matrix
+import Hpv.GraphModel
 open Lean
 
 namespace Drv
@@ -99,6 +100,92 @@ def c17csr (j : Json) : Except String Json := do
   return Json.mkObj [("reads", Json.arr rs)]
 end C17
 
+/-! ### graphs: C01, C02, C03, C14, C18 -/
+section Graphs
+open Hpv.GM Hpv.TermId
+
+abbrev Key := List Nat × List Nat
+
+def keyOrd : Hpv.Graph.Ord Key := ⟨fun a b => if a.1 = b.1 then slt a.2 b.2 else slt a.1 b.1⟩
+def owlThing : Key := (strToCps "owl", strToCps "Thing")
+
+def keyOfStr (s : String) : Option Key := (fromCurie (strToCps s)).map (fun t => (t.pfx, t.id))
+def keyStr (k : Key) : String := cpsToStr k.1 ++ ":" ++ cpsToStr k.2
+
+def argOf (j : Json) : Option Key :=
+  match j with
+  | .str s => keyOfStr s
+  | _ => none
+
+def qOf : String → Except String Q
+  | "children" => pure .children | "parents" => pure .parents
+  | "ancestors" => pure .ancestors | "descendants" => pure .descendants
+  | s => throw s!"unknown query {s}"
+
+def predOf : String → Except String Pred
+  | "parentOf" => pure .parentOf | "childOf" => pure .childOf
+  | "ancestorOf" => pure .ancestorOf | "descendantOf" => pure .descendantOf
+  | s => throw s!"unknown predicate {s}"
+
+def factoryOf : String → Except String Factory
+  | "indexed" => pure .indexed | "incremental" => pure .incremental | "builder" => pure .builder
+  | s => throw s!"unknown factory {s}"
+
+def keysJson (r : Except Hpv.Err (List Key)) : Json := exceptJson (r.map (·.map keyStr))
+
+def graphQuery (g : G Key) (qj : Json) : Except String Json := do
+  let a ← qj.getArr?
+  let el (i : Nat) : Json := a[i]?.getD Json.null
+  let k ← (el 0).getStr?
+  let na := Json.mkObj [("na", true)]
+  match k with
+  | "q" => return keysJson (g.query keyOrd (← qOf (← (el 1).getStr?)) (argOf (el 2)) (← (el 3).getBool?))
+  | "leaf" => return exceptJson (g.isLeaf keyOrd (argOf (el 1)))
+  | "pred" => return exceptJson (g.pred keyOrd (← predOf (← (el 1).getStr?)) (argOf (el 2)) (argOf (el 3)))
+  | "contains" => match argOf (el 1) with
+    | some key => return Json.mkObj [("ok", g.contains keyOrd key)]
+    | none => return Json.mkObj [("ok", false)]
+  | "root" => return exceptJson (g.root.map keyStr)
+  | "nodes" => return Json.mkObj [("ok", toJson (g.nodes.map keyStr))]
+  | "helper" => return keysJson (helper keyOrd g (← qOf (← (el 1).getStr?)) (argOf (el 2)) (← (el 3).getBool?))
+  | "path" => return exceptJson (existsPath keyOrd g (argOf (el 1)) (argOf (el 2)))
+  | "augment1" => return keysJson (augmentOne keyOrd g (← qOf (← (el 1).getStr?)) (argOf (el 2)) (← (el 3).getBool?))
+  | "augmentN" =>
+    let srcs ← (el 2).getArr?
+    return keysJson (augmentMany keyOrd g (← qOf (← (el 1).getStr?)) (srcs.toList.map argOf) (← (el 3).getBool?))
+  | _ =>
+    match g with
+    | .mx _ => return na
+    | .ix ig =>
+      match k with
+      | "qidx" => return exceptJson (ig.queryIdx (← qOf (← (el 1).getStr?)) (← (el 2).getInt?))
+      | "idx2node" => return exceptJson ((ig.idxToNode (← (el 1).getInt?)).map keyStr)
+      | "node2idx" => match argOf (el 1) with
+        | some key => return Json.mkObj [("ok", toJson (ig.nodeToIdx keyOrd key))]
+        | none => return Json.mkObj [("ok", Json.null)]
+      | "rootidx" => return Json.mkObj [("ok", toJson ig.root)]
+      | "predidx" => return exceptJson (ig.predIdx (← predOf (← (el 1).getStr?)) (← (el 2).getInt?) (← (el 3).getInt?))
+      | _ => throw s!"unknown graph query {k}"
+
+def edgeOfJson (j : Json) : Except String (Key × Key) := do
+  let a ← j.getArr?
+  let s ← (a[0]?.getD Json.null).getStr?
+  let o ← (a[1]?.getD Json.null).getStr?
+  match keyOfStr s, keyOfStr o with
+  | some x, some y => return (x, y)
+  | _, _ => throw s!"edge endpoint is not a CURIE: {s} {o}"
+
+def graphBatch (j : Json) : Except String Json := do
+  let f ← factoryOf (← j.getObjValAs? String "factory")
+  let edges ← (← j.getObjValAs? (Array Json) "edges").mapM edgeOfJson
+  let queries ← j.getObjValAs? (Array Json) "queries"
+  match build keyOrd owlThing f edges.toList with
+  | .error e => return Json.mkObj [("build_err", errName e)]
+  | .ok g =>
+    let rs ← queries.mapM (graphQuery g)
+    return Json.mkObj [("answers", Json.arr rs)]
+end Graphs
+
 def handle (j : Json) : Except String Json := do
   let op ← j.getObjValAs? String "op"
   match op with
@@ -106,6 +193,7 @@ def handle (j : Json) : Except String Json := do
   | "c04.cmp" => c04cmp j
   | "c04.sort" => c04sort j
   | "c17.hist" => c17hist j
+  | "graph.batch" => graphBatch j
   | "c17.csr" => c17csr j
   | _ => throw s!"unknown op {op}"
 end Drv
